@@ -19,7 +19,7 @@ use serde::Serialize;
 use crate::eds::{AxisType, ExtendedDataSquare};
 use crate::nmt::NamespaceProof;
 use crate::row::{ROW_ID_SIZE, RowId};
-use crate::{DataAvailabilityHeader, Error, Result, Share, bail_validation};
+use crate::{DataAvailabilityHeader, Error, Result, Share, bail_validation, bail_verification};
 
 pub use celestia_proto::shwap::Sample as RawSample;
 
@@ -126,14 +126,29 @@ impl Sample {
 
     /// verify sample with root hash from ExtendedHeader
     pub fn verify(&self, id: SampleId, dah: &DataAvailabilityHeader) -> Result<()> {
-        let root = match self.proof_type {
-            AxisType::Row => dah
-                .row_root(id.row_index())
-                .ok_or(Error::EdsIndexOutOfRange(id.row_index(), 0))?,
-            AxisType::Col => dah
-                .column_root(id.column_index())
-                .ok_or(Error::EdsIndexOutOfRange(0, id.column_index()))?,
+        // both coordinates must lie inside the square committed by the header
+        let row_root = dah
+            .row_root(id.row_index())
+            .ok_or(Error::EdsIndexOutOfRange(id.row_index(), 0))?;
+        let column_root = dah
+            .column_root(id.column_index())
+            .ok_or(Error::EdsIndexOutOfRange(0, id.column_index()))?;
+
+        // the proof is checked against the root of the axis it was created for, and it
+        // must prove the leaf at the requested position of that axis, not any other one
+        let (root, index) = match self.proof_type {
+            AxisType::Row => (row_root, id.column_index()),
+            AxisType::Col => (column_root, id.row_index()),
         };
+
+        if self.proof.start_idx() != u32::from(index) {
+            bail_verification!(
+                "proof is for index {} but sample ({}, {}) was requested",
+                self.proof.start_idx(),
+                id.row_index(),
+                id.column_index()
+            );
+        }
 
         self.proof
             .verify_range(&root, &[&self.share], *self.share.namespace())
